@@ -31,6 +31,9 @@ impl<F> RankCalc<F> {
             .collect::<VecDeque<FnId>>();
 
         while let Some(fn_id) = fn_ids.pop_front() {
+            #[cfg(feature = "verif_hooks")]
+            crate::verif_hooks::rank_calc_pop();
+
             let fn_rank = ranks[fn_id.index()];
             let child_rank_maybe = fn_rank + 1;
 
